@@ -336,6 +336,7 @@ def write_evidence(prop, prop_id, tier, seed, results, wall, n_viol, known_ids, 
     ops, probes, faults = {}, {}, {}
     distinct = set()
     sim_ms = 0
+    evals = 0
     samples = []
     components = {}
     for r in results:
@@ -348,7 +349,10 @@ def write_evidence(prop, prop_id, tier, seed, results, wall, n_viol, known_ids, 
         for k, v in (r.get("faults") or {}).items():
             faults[k] = faults.get(k, 0) + v
         sim_ms += r.get("sim_ms", 0)
-        if r.get("nontrivial") and r.get("abstract"):
+        evals += r.get("evals", 1)
+        if r.get("distinct_set") is not None:
+            distinct.update(r["distinct_set"])
+        elif r.get("nontrivial") and r.get("abstract"):
             distinct.add(r["abstract"])
         if len(samples) < 3 and r.get("nontrivial") and r.get("sample"):
             samples.append(r["sample"])
@@ -363,7 +367,8 @@ def write_evidence(prop, prop_id, tier, seed, results, wall, n_viol, known_ids, 
         "wall_s": round(wall, 2),
         "violations": n_viol,
         "coverage": {
-            "evaluations": n,
+            "evaluations": max(evals, n),
+            "tasks": n,
             "distinct_nontrivial": len(distinct),
             "rule": prop.rule,
             "samples": samples,
